@@ -38,7 +38,8 @@ QUICK_BUDGET_S = 100
 THOROUGH_BUDGET_S = 1500
 RULE = ("one run = (workers 2-3, per-worker cache capacity 0-3 or default, ttl 100/30/3600) x a tape-drawn sequence of 6-17 actions "
         "(init / turn with the latest or a stale cursor / cancel / clock advance around the ttl / worker restart / colliding call id); every "
-        "turn and cancel is compared with a freshly restarted reference worker; non-trivial = at least one comparison; distinct = distinct "
+        "turn and cancel is compared with a freshly restarted reference worker; one run in four is the threaded stratum instead (2-3 simulated "
+        "threads with drawn get/put plans over 1-3 keys on ONE real _CallStateCache of capacity 1-3, line + sync-point pre-emption); non-trivial = at least one comparison; distinct = distinct "
         "(configuration, action sequence)")
 COMPONENTS = {
     "real": ["make_wsgi_app Falcon stack (one per worker)", "_app_stream init / exchange / producer turn / cancel", "_unpack_and_recover_state + "
